@@ -30,10 +30,43 @@ var sessCorpus = []struct {
 	{"i:0,m:0", "c0,o0,c1,o1,s0,s1,pi0r,pm0e,g"},        // two requests with one id: the later registration owns the slot
 	{"i:0,i:0", "c0,o0,s0,c1,o1,s1,x1,pi0r"},            // same id twice: the second call's return removes the slot
 	{"m:3", "c0,o0,s0,pm3e,g,x0,h,k0"},
+	// requests that spell out the stream's namespace: a response of another kind with the same id
+	// must go to the handler, the real one to the caller (every kind, both APIs)
+	{"i:0:c:r", "c0,o0,s0,pm0e,pp0e,pi0e,g,h,k0"},
+	{"i:0:c:e", "c0,o0,s0,pm0e,pp0e,pm0r,pi0r,g,h,k0"},
+	{"m:0:c:r", "c0,o0,s0,pi0e,pi0r,pp0e,pm0e,g,h,k0"},
+	{"m:0:c:e", "c0,o0,s0,pi0r,pp0e,pm0e,g,h,k0"},
+	{"p:0:c:r", "c0,o0,s0,pi0e,pm0e,pp0e,g,h,k0"},
+	{"p:0:c:e", "c0,o0,s0,pi0r,pm0e,pp0e,g,h,k0"},
+	{"i:0:e:e,m:1:e:e,p:2:e:e", "c0,o0,c1,o1,c2,o2,s0,s1,s2,pm0e,pp1e,pi2r,pi0r,g,h,k0,pm1e,g,h,k1,pp2e,g,h,k2"},
+	// the other stanza namespace: matched only by a stanza that carries it too
+	{"i:0:s:r", "c0,o0,s0,pi0r,pi0rS,g,h,k0"},
+	{"i:0:c:r", "c0,o0,s0,pi0rS,pi0r,g,h,k0"},
+	{"i:0:e:r", "c0,o0,s0,pm0eS,pi0rS,g,h,k0"},
+	// only result/error stanzas consult the table: a get/set (or chat, available) with the id of a
+	// pending request goes to the handler and the caller keeps waiting
+	{"i:0:e:r", "c0,o0,s0,pi0g,pi0t,pm0n,pp0n,pi0r,g,h,k0"},
+	{"i:0:c:e,i:1:e:r", "c0,o0,c1,o1,s0,s1,pi1g,pi0t,pi1r,g,h,k1,pi0e,g,h,k0"},
 	{"p:3", "c0,o0,s0,pp3e,g,h,x0,k0,pp3e"},
 }
 
-var peerAlphabet = []string{"pi0r", "pi0e", "pi1r", "pm0e", "pm1e", "pp0e", "pi9r", "pm0n", "pp1n"}
+// every stanza kind x type (result, error; normal, get, set) x id (two requester ids and an
+// unknown one) x namespace (the stream's, jabber:server spelled out)
+var peerAlphabet = func() []string {
+	var out []string
+	for _, k := range "imp" {
+		types := "ren"
+		if k == 'i' {
+			types = "regt"
+		}
+		for _, t := range types {
+			for _, id := range []int{0, 1, 9} {
+				out = append(out, fmt.Sprintf("p%c%d%c", k, id, t), fmt.Sprintf("p%c%d%cS", k, id, t))
+			}
+		}
+	}
+	return out
+}()
 
 func parseReqs(s string) []reqSpec {
 	var out []reqSpec
@@ -43,7 +76,14 @@ func parseReqs(s string) []reqSpec {
 	for _, f := range strings.Split(s, ",") {
 		p := strings.Split(f, ":")
 		id, _ := strconv.Atoi(p[1])
-		out = append(out, reqSpec{kind: p[0][0], id: id})
+		q := reqSpec{kind: p[0][0], id: id, ns: 'e', api: 'r'}
+		if len(p) > 2 && p[2] != "" {
+			q.ns = p[2][0]
+		}
+		if len(p) > 3 && p[3] != "" {
+			q.api = p[3][0]
+		}
+		out = append(out, q)
 	}
 	return out
 }
@@ -84,7 +124,7 @@ func randReqs(rnd *common.Rand) []reqSpec {
 		if rnd.Chance(1, 4) {
 			id = rnd.Intn(2)
 		}
-		out = append(out, reqSpec{kind: "iiimp"[rnd.Intn(5)], id: id})
+		out = append(out, reqSpec{kind: "iiimp"[rnd.Intn(5)], id: id, ns: "eeccs"[rnd.Intn(5)], api: "re"[rnd.Intn(2)]})
 	}
 	return out
 }
@@ -110,6 +150,15 @@ func Run(r *common.Run) error {
 		}
 		return nil
 	}
+	// free-running concurrent use (the race-detector run consists of this and the corpora)
+	r.Mark("case concurrent 0")
+	runConcurrent(r, 6, r.Pick(15, 60))
+	if r.Race() {
+		for k := 1; k <= 6; k++ {
+			r.Mark("case concurrent %d", k)
+			runConcurrent(r, 2+k, 40)
+		}
+	}
 	for n, c := range sessCorpus {
 		r.Mark("case sess-corpus %d", n)
 		runSess(r, parseReqs(c.reqs), strings.Split(c.sched, ","), "sess-corpus")
@@ -118,7 +167,59 @@ func Run(r *common.Run) error {
 		r.Mark("case rcpt-corpus %d", n)
 		runRcpt(r, parseIDs(c.ids), strings.Split(c.sched, ","), "rcpt-corpus")
 	}
-	nS := r.Pick(2500, 40000)
+	if r.Race() {
+		r.Notes = append(r.Notes, "race-detector run: concurrent scenarios and corpora only")
+		return nil
+	}
+	// schedules generated from the Lean LTS by the driver
+	nGen := 0
+	if bin := findDriver(r.Dir); bin != "" {
+		configs := r.Pick(40, 400)
+		per := r.Pick(30, 60)
+		for n := 0; n < configs && len(r.Failures) < 60 && r.Hist["problem"] < 25; n++ {
+			reqs := randReqs(r.Rnd)
+			if len(reqs) > 2 {
+				reqs = reqs[:2]
+			}
+			ans, err := askDriver(bin, fmt.Sprintf("C06 gen %s %d %d %d", reqField(reqs), r.Rnd.Intn(1<<30), per, 10+r.Rnd.Intn(20)))
+			if err != nil {
+				r.Notes = append(r.Notes, "schedule generation failed: "+err.Error())
+				break
+			}
+			for _, sc := range strings.Split(ans, ";") {
+				if sc == "" || sc == "-" {
+					continue
+				}
+				r.Mark("case sess-model %d", nGen)
+				nGen++
+				runSessScript(r, reqs, strings.Split(sc, ","), "sess-model")
+			}
+		}
+		if !r.Quick() {
+			// every path of the LTS up to a bound, one and two requesters
+			for _, cfg := range []struct {
+				reqs  string
+				depth int
+			}{{"i:0:e:r", 9}, {"m:0:c:e", 8}, {"i:0:e:r,i:1:c:e", 6}, {"i:0:c:r,m:0:e:e", 6}} {
+				ans, err := askDriver(bin, fmt.Sprintf("C06 genall %s %d %d", cfg.reqs, cfg.depth, 15000))
+				if err != nil {
+					break
+				}
+				for _, sc := range strings.Split(ans, ";") {
+					if sc == "" || sc == "-" || len(r.Failures) >= 60 || r.Hist["problem"] >= 25 {
+						continue
+					}
+					r.Mark("case sess-model-all %d", nGen)
+					nGen++
+					runSessScript(r, parseReqs(cfg.reqs), strings.Split(sc, ","), "sess-model-exhaustive")
+				}
+			}
+			r.Exhaustive = append(r.Exhaustive, "every path of the session LTS with <= 9 (one requester) / 6 (two requesters) harness actions over the generated peer alphabet (capped at 15000 per configuration)")
+		}
+	} else {
+		r.Notes = append(r.Notes, "xdriver not found: no model-generated schedules in this run")
+	}
+	nS := r.Pick(600, 8000)
 	for n := 0; n < nS && len(r.Failures) < 60 && r.Hist["problem"] < 25; n++ {
 		r.Mark("case sess-random %d", n)
 		reqs := randReqs(r.Rnd)
@@ -130,7 +231,7 @@ func Run(r *common.Run) error {
 		ids := randIDs(r.Rnd)
 		runRcpt(r, ids, randRcptSched(r.Rnd, len(ids), 8+r.Rnd.Intn(24)), "rcpt-random")
 	}
-	r.Notes = append(r.Notes, fmt.Sprintf("forced schedules: %d session corpus + %d random, %d receipts corpus + %d random", len(sessCorpus), nS, len(rcptCorpus), nR))
+	r.Notes = append(r.Notes, fmt.Sprintf("forced schedules: %d session corpus + %d generated from the Lean LTS + %d harness-random, %d receipts corpus + %d random", len(sessCorpus), nGen, nS, len(rcptCorpus), nR))
 	return nil
 }
 
